@@ -75,7 +75,21 @@ def run_case(case):
     for v in trace.values():
         v.clear()          # warm-up calls
     eps = []
+
+    def own_phase(n, seen=()):
+        """longest expected-delay path into node n over its non-skipped connections, from the DECLARED delays (independent of BaseNode.phase)"""
+        if n in seen:
+            return 0.0
+        return max([0.0] + [own_phase(cn.output_node.name, seen + (n,)) + float(cn.output_node.delay) + float(cn.delay) for cn in nodes[n].inputs.values() if not cn.skip])
+    redelay = case.get("redelay", case["seed"] % 3 == 0)
+    phases = []
     for ep in range(case["episodes"]):
+        if redelay and ep >= 1:
+            # C04 / C16 over a history: the expected delay of the most upstream node (and of one connection) changes between episodes on the SAME node objects;
+            # the next episode must be scheduled with the phases that follow from the new values
+            a.set_delay(delay=float(a.delay) + 0.011 * ep)
+            b.inputs["a"].set_delay(delay=float(b.inputs["a"].delay) + 0.004)      # (two hops upstream of the supervisor)
+        phases.append({n: own_phase(n) for n in nodes})
         for v in trace.values():
             v.clear()
         gs, ss = ag.reset(gs0)       # reset()/step(): stop() right after run() can block (C05, outside this technique)
@@ -120,7 +134,7 @@ def run_case(case):
                 bad.append(("C04-end-is-not-start-plus-delay", f"eps {ep} {n}"))
             if (ts[1:] < te[:-1] - TOL).any():
                 bad.append(("C04-step-starts-before-previous-ended", f"eps {ep} {n}"))
-            sched_ts = np.round(np.arange(k) / nd.rate + float(nd.phase), 6)
+            sched_ts = np.round(np.arange(k) / nd.rate + phases[ep][n], 6)
             only_blocking = len(nd.inputs) > 0 and all(cn.blocking for cn in nd.inputs.values())
             if not (nd.advance and only_blocking) and (ts < sched_ts - TOL).any():
                 j = int(np.argmax(ts < sched_ts - TOL))
@@ -191,7 +205,7 @@ def run_case(case):
                     break
     # C02 (and episode isolation): every episode starts from the same graph state, so it must reproduce the first one on the common prefix
     rec0 = eps[0][0]
-    for ep in range(1, len(eps)):
+    for ep in range(1, len(eps) if not redelay else 1):        # (not when the declared delays are changed between the episodes: those episodes are meant to differ)
         rec = eps[ep][0]
         for n in nodes:
             for fld in ("ts_start", "ts_end"):
@@ -259,6 +273,8 @@ def main():
     rng = np.random.RandomState(3000 + a.seed)
     t0 = time.time()
     cases = [make_case(rng) for _ in range(a.n)]
+    # a history with delay changes between episodes, whatever the seeds of the random cases are
+    cases.append(dict(cases[0], redelay=True, episodes=max(2, cases[0]["episodes"])))
     from concurrent.futures import ThreadPoolExecutor
     with ThreadPoolExecutor(max_workers=min(8, a.n)) as pool:
         outs = list(pool.map(run_with_timeout, cases))
